@@ -39,3 +39,16 @@ CLAIMED["C05"] = {
             "validated by the oracle, proved only for the selection function (findBest_perm).",
     "technique": "Lean 4 theorems (order characterisation, fold invariant, case analysis) + differential correspondence through PtpInstance::bmca",
 }
+
+CLAIMED["C06"] = {
+    "text": "Proof (steady-announcer half partial). Lean theorems for every history of Announce registrations and BMCA runs on a port's foreign "
+            "master list: an Erbest always is the newest of at least two stored records of its sender; after a single Announce from a "
+            "sender (and any other traffic, any BMCA phasing) that sender is never selected; no record with stepsRemoved >= 255 or the "
+            "instance's own clock identity is ever stored or selected; after every BMCA run all records are younger than 4 announce "
+            "intervals; a sender that stays silent while BMCA steps adding up to the window go by has no record left. The half 'a master "
+            "that keeps announcing is never dropped, including across sequence wrap' is NOT proved (stated as SteadyStmt) — it is checked "
+            "by the fml stream's oracle and by the correspondence. Constants are tied to the source by the translator.",
+    "note": "Trusted: Lean kernel; generators; the BMCA step equals the smallest announce interval (host contract). Known finding: a "
+            "network-duplicated Announce (same sequenceId) counts as two.",
+    "technique": "Lean 4 theorems (invariants by induction over op histories) + translated constants + differential correspondence",
+}
